@@ -32,6 +32,10 @@ CHECKS = {
    technique="exhaustive enumeration of truncation points plus seeded single-byte substitutions of valid .ao/.fm/.al files, validity-predicate oracle over five consumers",
    text="Every truncation length of the object file (each point at which a writer could have died) and substitutions at every header/section-table offset and seeded body offsets are fed to five consumers; each must reproduce the intact outputs byte for byte or refuse with a diagnostic and non-zero status, never fault, hang or silently differ.",
    note="Substitutions inside section contents are a listed known finding (no checksum in the format); truncations and header damage are strict.", design="4 C17"),
+ "C18": dict(level="fault_enumeration", engine="fault-enumeration",
+   technique="fault injection enumerated over output kinds x fault points: /dev/full, directory/missing-directory targets, the n-th write(2) failing (strace -e inject) for every n, RLIMIT_FSIZE sweep; validity-predicate oracle",
+   text="For each of the nine output kinds every point of the output's write history is failed in turn (ENOSPC, EIO, all writes from the n-th on) besides path faults and file-size limits; exit 0 must imply a complete, byte-identical output and a delivered fault must give an error message and non-zero exit.",
+   note="Only calls on the chosen output path are failed (strace -P).", design="4 C18"),
  "C19": dict(level="exploration", engine="exhaustive-loop+hypothesis",
    technique="exhaustive enumeration of all 2^32 single-precision patterns and boundary/random double patterns through round-trip identities; generated-literal differential through the compiler",
    text="All 2^32 single patterns and 270k+ boundary double patterns (plus seeded random ones) survive the portable encoding and dissemble/assemble bit-exactly; compiler-level layers compare folded, interpreted, compiled and reloaded constants.",
